@@ -1,8 +1,9 @@
 (* Properties_C15.v — property C15 (informed sampling returns only, and all of, the states that can still help).
    Statements only.  Geometry over R in the hyperspheroid's own frame (a = coordinate along the transverse axis,
-   b = norm of the orthogonal part; the rotation into the world frame is Eigen's and is checked numerically). *)
-From Coq Require Import List ZArith Bool Arith Reals.
-From OmplV Require Import PhsModel PhsProofs.
+   b = norm of the orthogonal part), lifted to vectors of every length and, for any distance-preserving placement of the
+   frame, to the world (that Eigen's rotation is distance-preserving is checked numerically on every run). *)
+From Coq Require Import List ZArith Bool Arith Reals Lra.
+From OmplV Require Import PhsModel PhsProofs PhsGeom.
 Import ListNotations.
 
 (* points of the unit sphere map to points whose summed focal distance equals the transverse diameter c *)
@@ -19,6 +20,56 @@ Theorem C15_measure_is_scaled_ball : forall n c f,
 Proof. exact phs_measure_is_scaled_ball. Qed.
 Theorem C15_unit_ball_values : unit_ball 2 = PI /\ unit_ball 3 = (4 / 3 * PI)%R /\ unit_ball 4 = (PI * PI / 2)%R.
 Proof. exact unit_ball_values. Qed.
+
+(* ---- 'all of': the hyperspheroid is exactly the image of the unit ball, in every dimension *)
+(* every point whose summed focal distance is at most c is the image of a point of the unit ball: no state that could
+   still improve the solution is outside the sampled region *)
+Theorem C15_every_point_within_bound_is_image_of_ball : forall c f a rest, (0 <= f)%R -> (2 * f < c)%R ->
+  (focal_sum_n f (a :: rest) <= c)%R ->
+  (norm2 (phs_unmap c f (a :: rest)) <= 1)%R /\ phs_map c f (phs_unmap c f (a :: rest)) = a :: rest.
+Proof. exact phs_point_is_image_of_ball_n. Qed.
+Theorem C15_ball_maps_inside_every_dimension : forall c f u1 rest, (0 <= f)%R -> (2 * f <= c)%R -> (norm2 (u1 :: rest) <= 1)%R ->
+  (focal_sum_n f (phs_map c f (u1 :: rest)) <= c)%R.
+Proof. exact ball_maps_inside_n. Qed.
+Theorem C15_sphere_maps_onto_focal_sum_every_dimension : forall c f u1 rest, (0 <= f)%R -> (2 * f <= c)%R -> (norm2 (u1 :: rest) = 1)%R ->
+  focal_sum_n f (phs_map c f (u1 :: rest)) = c.
+Proof. exact sphere_maps_onto_focal_sum_n. Qed.
+(* open ball <-> heuristic cost strictly below the bound *)
+Theorem C15_open_ball_maps_strictly_inside : forall c f u1 rest, (0 <= f)%R -> (2 * f < c)%R -> (norm2 (u1 :: rest) < 1)%R ->
+  (focal_sum_n f (phs_map c f (u1 :: rest)) < c)%R.
+Proof. exact open_ball_maps_strictly_inside_n. Qed.
+Theorem C15_every_point_below_bound_is_image_of_open_ball : forall c f a rest, (0 <= f)%R -> (2 * f < c)%R ->
+  (focal_sum_n f (a :: rest) < c)%R -> (norm2 (phs_unmap c f (a :: rest)) < 1)%R.
+Proof. exact phs_interior_is_image_of_open_ball_n. Qed.
+(* the map is a linear bijection (two-sided inverse phs_unmap), so the uniform density on the ball is carried to the
+   uniform density on the hyperspheroid, scaled by the constant Jacobian of C15_measure_is_scaled_ball *)
+Theorem C15_transform_inverse_left : forall c f u, (0 <= f)%R -> (2 * f < c)%R -> phs_unmap c f (phs_map c f u) = u.
+Proof. exact phs_unmap_map. Qed.
+Theorem C15_transform_inverse_right : forall c f x, (0 <= f)%R -> (2 * f < c)%R -> phs_map c f (phs_unmap c f x) = x.
+Proof. exact phs_map_unmap. Qed.
+Theorem C15_transform_is_linear : forall c f u v k, length u = length v ->
+  phs_map c f (vadd u v) = vadd (phs_map c f u) (phs_map c f v) /\
+  phs_map c f (map (fun x => (k * x)%R) u) = map (fun x => (k * x)%R) (phs_map c f u).
+Proof. exact phs_map_linear. Qed.
+(* RNG::uniformInBall: a normalised direction times a radius rho has squared norm rho^2 *)
+Theorem C15_ball_point_norm : forall g rho, (0 < norm2 g)%R -> norm2 (ball_point g rho) = (rho * rho)%R.
+Proof. exact ball_point_norm. Qed.
+(* a direct sample, placed in the world by any distance-preserving T: its summed distance to the placed foci is
+   strictly below the bound, for every Gaussian draw with a non-zero vector and every radius in [0, 1) *)
+Theorem C15_direct_sample_world_cost_below_bound : forall T : list R -> list R,
+  (forall x y, length x = length y -> dist2 (T x) (T y) = dist2 x y) ->
+  forall c f g1 grest rho, (0 <= f)%R -> (2 * f < c)%R -> (0 < norm2 (g1 :: grest))%R -> (0 <= rho < 1)%R ->
+  let n := length grest in
+  (world_focal_sum (T (focus 1 f n)) (T (focus (-1) f n)) (T (phs_map c f (ball_point (g1 :: grest) rho))) < c)%R.
+Proof. exact direct_sample_world_cost_below_bound. Qed.
+(* and every placed point within the bound is the placement of the image of a ball point *)
+Theorem C15_world_point_within_bound_is_image : forall T : list R -> list R,
+  (forall x y, length x = length y -> dist2 (T x) (T y) = dist2 x y) ->
+  forall c f a rest, (0 <= f)%R -> (2 * f < c)%R ->
+  (world_focal_sum (T (focus 1 f (length rest))) (T (focus (-1) f (length rest))) (T (a :: rest)) <= c)%R ->
+  exists u, (norm2 u <= 1)%R /\ T (phs_map c f u) = T (a :: rest).
+Proof. exact world_point_within_bound_is_image. Qed.
+
 
 (* sampler loops, for every sequence of candidate draws and every iteration limit *)
 Theorem C15_rejection_sample_success : forall maxc numit tape x it t,
@@ -38,6 +89,17 @@ Print Assumptions C15_sphere_maps_onto_focal_sum.
 Print Assumptions C15_ball_maps_inside.
 Print Assumptions C15_measure_is_scaled_ball.
 Print Assumptions C15_unit_ball_values.
+Print Assumptions C15_every_point_within_bound_is_image_of_ball.
+Print Assumptions C15_ball_maps_inside_every_dimension.
+Print Assumptions C15_sphere_maps_onto_focal_sum_every_dimension.
+Print Assumptions C15_open_ball_maps_strictly_inside.
+Print Assumptions C15_every_point_below_bound_is_image_of_open_ball.
+Print Assumptions C15_transform_inverse_left.
+Print Assumptions C15_transform_inverse_right.
+Print Assumptions C15_transform_is_linear.
+Print Assumptions C15_ball_point_norm.
+Print Assumptions C15_direct_sample_world_cost_below_bound.
+Print Assumptions C15_world_point_within_bound_is_image.
 Print Assumptions C15_rejection_sample_success.
 Print Assumptions C15_rejection_sample_two_bounds.
 Print Assumptions C15_direct_sample_success.
@@ -49,3 +111,16 @@ Example C15_nonvacuous :
   rejection_sample 14 2 (map cd [12; 13; 11; 1]%Z) = (false, Some (cd 13%Z), 2, [cd 11%Z; cd 1%Z]) /\
   rejection_sample_minmax 12 16 10 (map cd [20; 5; 12; 11]%Z) = (true, Some (cd 12%Z)).
 Proof. vm_compute. repeat split. Qed.
+
+(* the geometric hypotheses are met: c = 10, f = 3 (semi-axes 5 and 4); the point (3, 16/5) is on the surface, the
+   identity placement preserves distances *)
+Example C15_geometry_nonvacuous :
+  (0 <= 3)%R /\ (2 * 3 < 10)%R /\ focal_sum_n 3 [3; 16 / 5]%R = 10%R /\
+  (forall x y : list R, length x = length y -> dist2 ((fun v => v) x) ((fun v => v) y) = dist2 x y).
+Proof.
+  split; [lra|]. split; [lra|]. split; [|reflexivity].
+  cbn [focal_sum_n norm2 fold_right].
+  replace ((3 - 3) * (3 - 3) + (16 / 5 * (16 / 5) + 0))%R with ((16 / 5) * (16 / 5))%R by field.
+  replace ((3 + 3) * (3 + 3) + (16 / 5 * (16 / 5) + 0))%R with ((34 / 5) * (34 / 5))%R by field.
+  rewrite !sqrt_square by lra. field.
+Qed.
